@@ -1,3 +1,3 @@
 #!/bin/bash
 # MANIFEST.setup_cmd: build the framework from files on disk only (offline).
-cd /verif && tools/build.sh all
+cd "$(dirname "$0")/.." && tools/build.sh all
